@@ -1,10 +1,10 @@
 /-
   Proofs/Syntax.lean — the byte values of the string literals `Model/Syntax.lean` renders with
-  (`B "…"` goes through `String.toUTF8`, which the kernel does not evaluate by itself).
-  (The byte-literal part of worker c06's `Proofs/Syntax.lean`, same names and statements; c06's
-  file is a superset and supersedes this one when merged.)
+  (`B "…"` goes through `String.toUTF8`, which the kernel does not evaluate by itself), and
+  `Route.render` as the one-blank instance of the grammar's `renderWith`.
 -/
 import Flamego.Model.Syntax
+import Flamego.Spec.RouteGrammar
 namespace Flamego
 
 /-! ### `B "literal"` as bytes -/
@@ -65,4 +65,52 @@ theorem B_qqq : B "???" = [63, 63, 63] := by
   have h : "???" = String.ofList ['?', '?', '?'] := rfl
   rw [h, B_ofList]; decide
 
+/-! ### `render` is `renderWith` with one blank everywhere -/
+
+namespace RouteGrammar
+
+theorem renderValW_eq (v : BindVal) : renderValW v = v.render := by
+  cases v <;> simp [renderValW, BindVal.render, B_slash]
+
+theorem renderParam_one (p : BindParam) : p.render = renderParamW 1 p := by
+  simp [BindParam.render, renderParamW, B_colon_blank, blanks, renderValW_eq]
+
+theorem renderMore_nil (ps : List BindParam) :
+    renderMoreW [] ps = ps.flatMap (fun p => [44, 32] ++ p.render) := by
+  induction ps with
+  | nil => simp [renderMoreW]
+  | cons p ps ih => simp [renderMoreW, ih, spHead, blanks, renderParam_one]
+
+theorem renderParams_one (p : BindParam) (ps : List BindParam) :
+    renderParams (p :: ps) = renderParamsW [] (p :: ps) := by
+  induction ps generalizing p with
+  | nil => simp [renderParams, renderParamsW, renderMoreW, spHead, renderParam_one]
+  | cons q qs ih =>
+    rw [renderParams, ih q]
+    · simp [renderParamsW, renderMoreW, spHead, blanks, renderParam_one, B_comma_blank]
+    · simp
+
+theorem renderElem_one (e : Elem) : e.render = renderElemW [] e := by
+  cases e with
+  | ident s => simp [Elem.render, renderElemW]
+  | bind n => simp [Elem.render, renderElemW, B_lbrace, B_rbrace]
+  | params ps =>
+    cases ps with
+    | nil => simp [Elem.render, renderElemW, B_qqq]
+    | cons p ps => simp [Elem.render, renderElemW, B_lbrace, B_rbrace, renderParams_one]
+
+theorem renderElems_one (es : List Elem) : es.flatMap Elem.render = renderElemsW [] es := by
+  induction es with
+  | nil => simp [renderElemsW]
+  | cons e es ih => simp [renderElemsW, ih, renderElem_one]
+
+theorem renderSeg_one (s : Segment) : s.render = renderSegW [] s := by
+  simp only [Segment.render, renderSegW, B_slash, B_qmark, renderElems_one]
+
+theorem renderSegs_one (ss : List Segment) : ss.flatMap Segment.render = renderSegsW [] ss := by
+  induction ss with
+  | nil => simp [renderSegsW]
+  | cons s ss ih => simp [renderSegsW, ih, renderSeg_one]
+
+end RouteGrammar
 end Flamego
